@@ -26,6 +26,8 @@ CONSTANTS N,            \* limit of concurrent requests = size of the managed id
           TimeoutQ,     \* the read timeout, in clock quanta
           Timed,        \* TRUE: Tick enabled
           MaxHist,      \* bound on history length (0 = unbounded: no history kept)
+          Acts,         \* which environment actions are explored: subset of {"M","E","D","U","R","C","T"}
+                        \*   (U = responses for the never-sent UnknownId)
           Legacy        \* named deviations of the tree as first found (repaired since, see known_findings.txt):
                         \*   "leak"  a managed send refused after borrowing an id never returns it
 
@@ -172,12 +174,13 @@ Tick ==
     /\ UNCHANGED <<free, table, closed, nframe>>
 
 Next ==
-    \/ SendManaged
-    \/ \E k \in ExplicitIds : SendExplicit(k)
-    \/ \E id \in AllIds, l \in BOOLEAN : Deliver(id, l)
-    \/ \E ri \in 1..MaxReq : AppReceive(ri)
-    \/ Close
-    \/ Tick
+    \/ "M" \in Acts /\ SendManaged
+    \/ "E" \in Acts /\ \E k \in ExplicitIds : SendExplicit(k)
+    \/ "D" \in Acts /\ \E id \in AllIds \ {UnknownId}, l \in BOOLEAN : Deliver(id, l)
+    \/ "U" \in Acts /\ \E l \in BOOLEAN : Deliver(UnknownId, l)
+    \/ "R" \in Acts /\ \E ri \in 1..MaxReq : AppReceive(ri)
+    \/ "C" \in Acts /\ Close
+    \/ "T" \in Acts /\ Tick
 
 Spec == Init /\ [][Next]_vars
 
